@@ -185,6 +185,27 @@ theorem canon_ok {q : QNum} (h : q.den ≠ 0) :
     ∃ c, canon q = .ok c ∧ c.Canonical ∧ c.toRat = q.toRat := by
   refine ⟨ofRat q.toRat, by simp [canon, h], canonical_ofRat _, toRat_ofRat _⟩
 
+/-! ### the constructor `q_number(num, den)` -/
+
+theorem mk?_none_iff (n d : Int) : mk? n d = none ↔ d = 0 := by
+  unfold mk?; split <;> simp_all
+
+/-- on a non-zero denominator (of either sign) the constructor stores the canonical pair that
+    denotes `n / d` -/
+theorem mk?_spec (n d : Int) (h : d ≠ 0) :
+    ∃ q, mk? n d = some q ∧ q.Canonical ∧ q.toRat = Rat.divInt n d :=
+  ⟨ofRat (Rat.divInt n d), by simp [mk?, h, toRat], canonical_ofRat _, toRat_ofRat _⟩
+
+theorem roundToLower_mk (n d : Int) (h : d ≠ 0) :
+    ∃ q, mk? n d = some q ∧ roundToLower q = some (Rat.divInt n d).floor := by
+  obtain ⟨q, h1, h2, h3⟩ := mk?_spec n d h
+  exact ⟨q, h1, by rw [roundToLower_floor q h2.1, h3]⟩
+
+theorem roundToUpper_mk (n d : Int) (h : d ≠ 0) :
+    ∃ q, mk? n d = some q ∧ roundToUpper q = some (Rat.divInt n d).ceil := by
+  obtain ⟨q, h1, h2, h3⟩ := mk?_spec n d h
+  exact ⟨q, h1, by rw [roundToUpper_ceil q h2.1, h3]⟩
+
 /-- `operator+`, `-`, `*` on operands GMP accepts: a canonical pair denoting the exact result -/
 theorem bin_spec (f : Rat → Rat → Rat) (a b : QNum) (ha : 0 < a.den) (hb : b.den ≠ 0) :
     ∃ r, bin f a b = .ok r ∧ r.Canonical ∧ r.toRat = f a.toRat b.toRat := by
